@@ -1,3 +1,4 @@
 //! independent oracles
 pub mod snf;
 pub mod linalg;
+pub mod iso;
